@@ -128,3 +128,18 @@ r('rf-convert-ref-tuple-match',
   ('src/model/beatmap/mod.rs', "        if self.mode == mode {\n            return Ok(Cow::Borrowed(self));\n        } else if self.is_convert {\n            return Err(ConvertError::AlreadyConverted);\n        } else if self.mode != GameMode::Osu {\n            return Err(ConvertError::Convert {\n                from: self.mode,\n                to: mode,\n            });\n        }\n\n        let mut map = self.to_owned();",
    "        match (self.mode, mode) {\n            (from, to) if from == to => return Ok(Cow::Borrowed(self)),\n            _ if self.is_convert => return Err(ConvertError::AlreadyConverted),\n            (GameMode::Osu, _) => {}\n            (from, to) => return Err(ConvertError::Convert { from, to }),\n        }\n\n        let mut map = self.to_owned();"),
   props=['C07', 'C14', 'C19', 'C04', 'C02'])
+
+# catch nth rewritten with an absolute target index, the bound check on n kept in front of the addition
+r('rf-nth-absolute-target',
+  ('src/catch/difficulty/gradual.rs',
+   "        let skip_iter = self.diff_objects.iter().skip(self.idx.saturating_sub(1));\n\n        let mut take = cmp::min(n, self.len().saturating_sub(1));\n\n        // The first palpable object has no difficulty object\n        if self.idx == 0 && take > 0 {\n            take -= 1;\n            self.attrs.add_object_count(self.count[self.idx]);\n            self.idx += 1;\n        }\n\n        for curr in skip_iter.take(take) {\n            self.movement.process(curr, &self.diff_objects);\n\n            self.attrs.add_object_count(self.count[self.idx]);\n            self.idx += 1;\n        }\n\n        self.next()",
+   "        let target = self.idx + n;\n\n        for idx in self.idx..target {\n            if let Some(curr) = idx.checked_sub(1).map(|i| &self.diff_objects[i]) {\n                self.movement.process(curr, &self.diff_objects);\n            }\n\n            self.attrs.add_object_count(self.count[idx]);\n        }\n\n        self.idx = target;\n        let _ = cmp::min(0, 0);\n\n        self.next()"),
+  props=['C15', 'C02', 'C05', 'C03'])
+
+# hit_windows de-duplicated through ModsDependentKind::resolve (the correct version of seed C17-1: each slot keeps its own clock rate)
+r('rf-resolve-helper',
+  ('src/model/beatmap/attributes.rs', '        let ar_clock_rate = if self.ar.with_mods() { 1.0 } else { clock_rate };\n        let od_clock_rate = if self.od.with_mods() { 1.0 } else { clock_rate };\n\n        let mod_mult = |val: f32| {\n            if mods.hr() {\n                (val * 1.4).min(10.0)\n            } else if mods.ez() {\n                val * 0.5\n            } else {\n                val\n            }\n        };\n\n        let raw_ar = if self.ar.with_mods() {\n            self.ar.value(mods, GameMods::ar)\n        } else {\n            mod_mult(self.ar.value(mods, GameMods::ar))\n        };\n\n        let preempt = difficulty_range(f64::from(raw_ar), AR_WINDOWS) / ar_clock_rate;', '        let (raw_ar, ar_clock_rate) = self.ar.resolve(mods, GameMods::ar, clock_rate);\n        let (raw_od, od_clock_rate) = self.od.resolve(mods, GameMods::od, clock_rate);\n        let preempt = difficulty_range(raw_ar, AR_WINDOWS) / ar_clock_rate;'),
+  ('src/model/beatmap/attributes.rs', '                let raw_od = if self.od.with_mods() {\n                    self.od.value(mods, GameMods::od)\n                } else {\n                    mod_mult(self.od.value(mods, GameMods::od))\n                };\n\n                let great = difficulty_range(f64::from(raw_od), OSU_GREAT) / od_clock_rate;\n                let ok = difficulty_range(f64::from(raw_od), OSU_OK) / od_clock_rate;\n                let meh = difficulty_range(f64::from(raw_od), OSU_MEH) / od_clock_rate;\n', '                let great = difficulty_range(raw_od, OSU_GREAT) / od_clock_rate;\n                let ok = difficulty_range(raw_od, OSU_OK) / od_clock_rate;\n                let meh = difficulty_range(raw_od, OSU_MEH) / od_clock_rate;\n'),
+  ('src/model/beatmap/attributes.rs', '                let raw_od = if self.od.with_mods() {\n                    self.od.value(mods, GameMods::od)\n                } else {\n                    mod_mult(self.od.value(mods, GameMods::od))\n                };\n\n                let great = difficulty_range(f64::from(raw_od), TAIKO_GREAT) / od_clock_rate;\n                let ok = difficulty_range(f64::from(raw_od), TAIKO_OK) / od_clock_rate;\n', '                let great = difficulty_range(raw_od, TAIKO_GREAT) / od_clock_rate;\n                let ok = difficulty_range(raw_od, TAIKO_OK) / od_clock_rate;\n'),
+  ('src/model/beatmap/attributes.rs', '            ModsDependentKind::Custom(inner) => inner.value,\n        }\n    }\n', '            ModsDependentKind::Custom(inner) => inner.value,\n        }\n    }\n\n    fn resolve(\n        &self,\n        mods: &GameMods,\n        mods_fn: impl Fn(&GameMods) -> Option<f64>,\n        clock_rate: f64,\n    ) -> (f64, f64) {\n        let value = self.value(mods, mods_fn);\n\n        if self.with_mods() {\n            (f64::from(value), 1.0)\n        } else if mods.hr() {\n            (f64::from((value * 1.4).min(10.0)), clock_rate)\n        } else if mods.ez() {\n            (f64::from(value * 0.5), clock_rate)\n        } else {\n            (f64::from(value), clock_rate)\n        }\n    }\n'),
+  props=['C17', 'C08', 'C18'])
